@@ -126,24 +126,50 @@ class BorrowedResources(BaseResources[T]):
         # do not postpone if we can resume immediately
         if not self._resources._available >= self._debits:
             await (self._resources._available >= self._debits)
-        await self._resources.__remove_resources__(self._debits)
-        await self.__insert_resources__(self._debits)
+        try:
+            await self._resources.__remove_resources__(self._debits)
+        except BaseException:
+            # we are interrupted after taking the resources but before holding them
+            self.__release_later__(held=False)
+            raise
+        try:
+            await self.__insert_resources__(self._debits)
+        except BaseException:
+            self.__release_later__()
+            raise
         return self
 
     async def __aexit__(self, exc_type, exc_val, exc_tb):
         if exc_type is GeneratorExit:
             # we are killed forcefully and cannot perform async operations
-            # dispatch a new activity to release our resources eventually
+            self.__release_later__()
+        else:
+            try:
+                await self.__remove_resources__(self._debits)
+            except BaseException:
+                # we are interrupted after giving up the resources
+                # but before handing them back
+                self.__release_later__(held=False)
+                raise
+            await self._resources.__insert_resources__(self._debits)
+            # TODO: forcefully kill off anyone holding our resources?
+
+    def __release_later__(self, held: bool = True):
+        """
+        Dispatch new activities to release our resources eventually
+
+        This allows to release resources when we cannot perform async operations
+        ourselves, because we are being interrupted or forcefully killed.
+
+        :param held: whether the resources are currently added to our own levels
+        """
+        if held:
             __USIM_STATE__.loop.schedule(
                 self.__remove_resources__(self._debits)
             )
-            __USIM_STATE__.loop.schedule(
-                self._resources.__insert_resources__(self._debits)
-            )
-        else:
-            await self.__remove_resources__(self._debits)
-            await self._resources.__insert_resources__(self._debits)
-            # TODO: forcefully kill off anyone holding our resources?
+        __USIM_STATE__.loop.schedule(
+            self._resources.__insert_resources__(self._debits)
+        )
 
     def borrow(self, **amounts: T) -> 'BorrowedResources[T]':
         borrowing = super().borrow(**amounts)
